@@ -6,7 +6,9 @@ program, emits the boundary surface of the voxel set (two outward-wound triangle
 manifold mesh — verified with trimesh (`is_watertight`, `is_winding_consistent`, volume == #voxels·|det|) — and puts it in
 an integer pose (scale, flip, permute axes, translate; winding re-reversed for orientation-reversing poses).  The Lean
 model gets the *program and the pose* (never the mesh) and answers exact membership for query points at half-integer
-coordinates (doubled-integer protocol), so "inside" has no tolerance.
+coordinates (doubled-integer protocol), so "inside" has no tolerance.  A second family are convex polytopes in general
+position (hull of random integer points): the mesh is the hull triangulation, the model gets the exact integer face planes
+(`memPoly`), query points are half-integer points lying on no face plane.
 
  (a) `navis.in_volume(points, vol)`   vs `c18.mem`, for every available back-end (`ncollpyde`; `scipy` convex hull for
      convex volumes only; `pyoctree` is not installed), `n_rays` ∈ {None,1,2,3,5,8}, ndarray / DataFrame / list input,
@@ -161,6 +163,8 @@ def pose_str(pose):
 
 
 def solid_str(geom):
+    if geom.get('shape') == 'polytope':
+        return 'H:' + ';'.join(','.join(str(x) for x in h) for h in polytope_parts(geom['verts'])[2])
     body = ';'.join(('+' if b[0] else '-') + ','.join(str(x) for x in b[1:]) for b in geom['csg'])
     if geom.get('pose') and list(geom['pose']) != IDENT_POSE:
         return f"P:{pose_str(geom['pose'])}@{body}"
@@ -177,6 +181,17 @@ class BadMesh(Exception):
 def build_volume(geom, name='vol'):
     """navis.Volume of the posed solid + bookkeeping.  Raises BadMesh if the generated surface is not a proper volume
     (a generator problem, never a navis problem)."""
+    if geom.get('shape') == 'polytope':
+        try:
+            V, F, planes = polytope_parts(geom['verts'])
+        except BadMesh:
+            raise
+        except Exception as e:
+            raise BadMesh(f'hull failed: {e}')
+        tm = trimesh.Trimesh(V, F, process=False)
+        if not (tm.is_watertight and tm.is_winding_consistent and tm.volume > 0):
+            raise BadMesh('polytope mesh is not a volume')
+        return navis.Volume(V.copy(), F.copy(), name=name), []
     key = json.dumps([geom['csg'], geom.get('pose'), geom.get('tri', 0)])
     if key not in _VOLCACHE:
         import random as _r
@@ -202,6 +217,9 @@ def build_volume(geom, name='vol'):
 
 def posed_bbox2(geom):
     """Bounding box of the posed solid in doubled coordinates."""
+    if geom.get('shape') == 'polytope':
+        V = np.array(geom['verts'], dtype=np.int64)
+        return 2 * V.min(axis=0), 2 * V.max(axis=0)
     csg = geom['csg']
     lo = [min(b[1 + a] for b in csg) for a in range(3)]
     hi = [max(b[4 + a] for b in csg) for a in range(3)]
@@ -223,6 +241,17 @@ def query_points2(geom, vox, rnd, n):
     """Half-integer query points (doubled, all odd): about half inside cells of the solid, the rest in and around the
     bounding box, a few far away."""
     lo, hi = posed_bbox2(geom)
+    if geom.get('shape') == 'polytope':
+        planes = polytope_parts(geom['verts'])[2]
+        pts = []
+        for _ in range(20 * n):
+            if len(pts) >= n:
+                break
+            m = 5 if rnd.random() < 0.8 else 40
+            p = [rnd.randrange(int(lo[a]) - m, int(hi[a]) + m, 2) | 1 for a in range(3)]
+            if all(h[0] * p[0] + h[1] * p[1] + h[2] * p[2] != 2 * h[3] for h in planes):     # never on a face plane
+                pts.append(p)
+        return pts
     pts = []
     for _ in range(n):
         r = rnd.random()
@@ -242,6 +271,59 @@ def pts_str(pts):
 def half(pts2):
     return np.array(pts2, dtype=float).reshape(-1, 3) / 2.0
 
+
+
+# --- convex polytopes in general position (exact integer face planes) --------------------------------------------
+def _cross(u, v):
+    return [u[1] * v[2] - u[2] * v[1], u[2] * v[0] - u[0] * v[2], u[0] * v[1] - u[1] * v[0]]
+
+
+def polytope_parts(verts):
+    """Hull of integer points: (vertex array, outward-wound triangles, de-duplicated integer half-spaces [nx,ny,nz,d] with
+    n·x < d inside).  Everything exact in Python integers except the hull combinatorics (scipy/Qhull), which trimesh
+    re-verifies."""
+    from scipy.spatial import ConvexHull
+    P = np.array(verts, dtype=np.int64)
+    hull = ConvexHull(P.astype(float))
+    hv = sorted(int(i) for i in hull.vertices)
+    remap = {old: new for new, old in enumerate(hv)}
+    V = [[int(x) for x in P[i]] for i in hv]
+    N = len(V)
+    tot = [sum(v[a] for v in V) for a in range(3)]
+    faces, planes = [], set()
+    for simp in hull.simplices:
+        i, j, k = (remap[int(t)] for t in simp)
+        a, b, c = V[i], V[j], V[k]
+        n = _cross([b[t] - a[t] for t in range(3)], [c[t] - a[t] for t in range(3)])
+        side = sum(n[t] * (N * a[t] - tot[t]) for t in range(3))
+        if side == 0 or n == [0, 0, 0]:
+            raise BadMesh('degenerate polytope facet')
+        if side < 0:
+            n = [-x for x in n]
+            j, k = k, j
+        g = math.gcd(math.gcd(abs(n[0]), abs(n[1])), abs(n[2]))
+        n = [x // g for x in n]
+        planes.add((n[0], n[1], n[2], sum(n[t] * a[t] for t in range(3))))
+        faces.append([i, j, k])
+    return np.array(V, dtype=float), np.array(faces, dtype=np.int64), sorted(planes)
+
+
+def gen_polytope(rnd, big=False):
+    R = rnd.choice((2, 3, 4, 6) if big else (2, 3, 4))
+    off = [rnd.randrange(-30, 31) for _ in range(3)] if rnd.random() < 0.6 else [0, 0, 0]
+    for _ in range(100):
+        k = rnd.randrange(4, 13)
+        pts = distinct_points([[rnd.randrange(-R, R + 1) + off[a] for a in range(3)] for _ in range(k)])
+        if len(pts) < 4:
+            continue
+        try:
+            V, F, planes = polytope_parts(pts)
+            tm = trimesh.Trimesh(V, F, process=False)
+            if tm.is_watertight and tm.is_winding_consistent and tm.volume > 0.1:
+                return {'shape': 'polytope', 'verts': [[int(x) for x in v] for v in V], 'pose': None, 'csg': None}
+        except Exception:
+            continue
+    raise RuntimeError('no polytope generated')
 
 # --- shape generators ------------------------------------------------------------------------------------------
 def _rbox(rnd, lo, hi, minsize=1):
@@ -310,7 +392,8 @@ def gen_csg(rnd, shape, big=False):
 
 
 SHAPES = ['box', 'L', 'U', 'torus', 'shell', 'nested', 'disjoint', 'grow', 'csg']
-CONVEX = {'box'}
+CONVEX = {'box', 'polytope'}
+ALL_SHAPES = SHAPES + ['polytope']
 
 
 def gen_pose(rnd, kind=None, minscale=1):
@@ -334,7 +417,9 @@ def gen_pose(rnd, kind=None, minscale=1):
     return pose
 
 
-def gen_geom(rnd, shape=None, big=False, pose_kind=None, minscale=1):
+def gen_geom(rnd, shape=None, big=False, pose_kind=None, minscale=1, poly=True):
+    if shape == 'polytope' or (shape is None and poly and rnd.random() < 0.15):
+        return gen_polytope(rnd, big)
     for _ in range(200):
         sh = shape or rnd.choice(SHAPES)
         csg = gen_csg(rnd, sh, big)
@@ -345,6 +430,8 @@ def gen_geom(rnd, shape=None, big=False, pose_kind=None, minscale=1):
 
 
 def geom_class(geom):
+    if geom.get('shape') == 'polytope':
+        return f"polytope/{len(geom['verts'])}v"
     p = geom.get('pose') or IDENT_POSE
     tags = []
     if p[0:3] != [1, 1, 1]:
@@ -407,7 +494,7 @@ def run_points(ctx, case):
     S = solid_str(geom)
     ctx.count('shape_pose', geom_class(geom))
     # the voxelisation the mesh was built from is the model's solid (every cell of the bounding box, one point each)
-    if case.get('check_vox', True):
+    if case.get('check_vox', True) and geom.get('shape') != 'polytope':
         csg = geom['csg']
         lo = [min(b[1 + a] for b in csg) - 1 for a in range(3)]
         hi = [max(b[4 + a] for b in csg) + 1 for a in range(3)]
@@ -895,6 +982,7 @@ def gen_tree_on(rnd, geom, vox, n, split='mixed'):
         pos = [[v | 1 for v in p] for p in pos]
     else:
         pos = query_points2(geom, vox, rnd, n)
+    n = len(pos)
     ids = gen_ids(rnd, n)
     nodes = []
     for i in range(n):
@@ -942,9 +1030,9 @@ def gen_cases(ctx):
 
     # (a) points: every shape first, then random
     for i in range(ctx.budget(120, 1200)):
-        shape = SHAPES[i % len(SHAPES)] if i < 3 * len(SHAPES) else None
+        shape = ALL_SHAPES[i % len(ALL_SHAPES)] if i < 3 * len(ALL_SHAPES) else None
         geom = gen_geom(rnd, shape, big=big and rnd.random() < 0.5)
-        vox = sorted(voxelise(geom['csg']))
+        vox = sorted(voxelise(geom['csg'] or []))
         pts = query_points2(geom, vox, rnd, rnd.choice((12, 40, 90) if q else (20, 80, 200)))
         variants = [['ncollpyde', nr, 'ndarray', 'volume', False] for nr in (nr_all if i % 3 == 0 else [rnd.choice(nr_all), None])]
         variants.append([None, None, rnd.choice(['frame', 'list']), rnd.choice(['volume', 'trimesh']), rnd.random() < 0.3])
@@ -957,8 +1045,8 @@ def gen_cases(ctx):
     # (b1) TreeNeuron
     calls_all = ['in_volume', 'prune_by_volume', 'prune_inplace', 'in_volume_inplace', 'neuronlist']
     for i in range(ctx.budget(120, 1200)):
-        geom = gen_geom(rnd, SHAPES[i % len(SHAPES)] if i < 2 * len(SHAPES) else None)
-        vox = sorted(voxelise(geom['csg']))
+        geom = gen_geom(rnd, ALL_SHAPES[i % len(ALL_SHAPES)] if i < 2 * len(ALL_SHAPES) else None)
+        vox = sorted(voxelise(geom['csg'] or []))
         split = ['mixed', 'mixed', 'mixed', 'inside', 'outside'][i % 5]
         nodes, conns = gen_tree_on(rnd, geom, vox, rnd.randrange(1, 12 if q else 30), split)
         calls = ['in_volume'] + ([rnd.choice(calls_all[1:])] if i % 2 == 0 else [])
@@ -967,7 +1055,7 @@ def gen_cases(ctx):
     # (b2) Dotprops
     for i in range(ctx.budget(60, 600)):
         geom = gen_geom(rnd)
-        vox = sorted(voxelise(geom['csg']))
+        vox = sorted(voxelise(geom['csg'] or []))
         pts = distinct_points(query_points2(geom, vox, rnd, rnd.randrange(1, 12 if q else 30)))
         if i % 6 == 0 and vox:
             pts = distinct_points([point_in_cell2(geom, rnd.choice(vox), rnd) for _ in range(4)])
@@ -977,8 +1065,8 @@ def gen_cases(ctx):
     # (b3) MeshNeuron: small tetrahedra (and loose triangles) spread over the scene
     for i in range(ctx.budget(70, 700)):
         want_clean = i % 2 == 0
-        geom = gen_geom(rnd, minscale=2 if want_clean else 1, pose_kind='full' if want_clean else None)
-        vox = sorted(voxelise(geom['csg']))
+        geom = gen_geom(rnd, minscale=2 if want_clean else 1, pose_kind='full' if want_clean else None, poly=False)
+        vox = sorted(voxelise(geom['csg'] or []))
         s, f, idx, t = pose_parts(geom['pose'])
         verts, faces = [], []
         for _ in range(rnd.randrange(1, 5 if q else 9)):
@@ -1013,18 +1101,19 @@ def gen_cases(ctx):
         vols = []
         for j in range(k):
             g = gen_geom(rnd)
-            g['pose'] = pose if rnd.random() < 0.7 else gen_pose(rnd)
+            if g['shape'] != 'polytope':
+                g['pose'] = pose if rnd.random() < 0.7 else gen_pose(rnd)
             vols.append(g)
         if rnd.random() < 0.25 and k > 1:
             vols[1] = json.loads(json.dumps(vols[0]))      # the same volume under two names
         names = rnd.sample(['LH', 'MB', 'AL', 'CA', 'v0', 'v1', 'x_y', 'Z9'], k)
         how = rnd.choice(['dict', 'list'])
-        if how == 'list' and k > 1 and rnd.random() < 0.15:
+        if how == 'list' and k > 1 and rnd.random() < 0.3:
             names[-1] = names[0]
         named = list(zip(names, vols))
         rnd.shuffle(named)
         g0 = vols[0]
-        vox0 = sorted(voxelise(g0['csg']))
+        vox0 = sorted(voxelise(g0['csg'] or []))
         if i % 3 == 0:
             yield 'multi', {'vols': named, 'how': how, 'target': 'points', 'pts': query_points2(g0, vox0, rnd, 25)}
         else:
@@ -1035,12 +1124,15 @@ def gen_cases(ctx):
         pose = gen_pose(rnd)
         vols = []
         for j in range(k):
-            g = gen_geom(rnd); g['pose'] = pose; vols.append(g)
+            g = gen_geom(rnd)
+            if g['shape'] != 'polytope':
+                g['pose'] = pose
+            vols.append(g)
         names = rnd.sample(['LH', 'MB', 'AL', 'CA', 'v0', 'v1'], k)
         trees = []
         for j in range(rnd.randrange(1, 4)):
             g = rnd.choice(vols)
-            trees.append(list(gen_tree_on(rnd, g, sorted(voxelise(g['csg'])), rnd.randrange(1, 10))))
+            trees.append(list(gen_tree_on(rnd, g, sorted(voxelise(g['csg'] or [])), rnd.randrange(1, 10))))
         yield 'imat', {'vols': list(zip(names, vols)), 'how': rnd.choice(['dict', 'list']), 'mode': rnd.choice(['IN', 'OUT']),
                        'default_mode': rnd.random() < 0.5, 'trees': trees}
 
@@ -1109,6 +1201,7 @@ def run(ctx):
     ctx.extra['rule'] = (
         'geometry: CSG program over integer boxes (box, L, U, torus, shell with cavity, nested shells, disjoint boxes, random '
         'face-connected voxel growth, random add/carve programs) rejected unless the voxel boundary is a 2-manifold; integer pose '
+        '(convex polytopes = hulls of 4-12 random integer points with exact integer face planes form a second family); pose: '
         '(scale 1..5 per axis, flips, axis permutation, translation up to 2000); mesh verified watertight/winding-consistent/'
         'volume by trimesh. streams: points (masks; back-ends, n_rays, input kinds), tree / dots / mesh (IN and OUT pruning with '
         'connectors; sparse, shuffled, >2^31 and 0 ids; all-inside / all-outside / mixed), multi (dict / list of 1-4 volumes, '
